@@ -328,7 +328,7 @@ func vfH_fault_read() {
 		cuts = vfDedup(cuts, T)
 	}
 	cut := vfPick(cuts)
-	kind := 1 + vfChoose(4)
+	kind := 1 + vfChoose(5)
 	tc := vfNewConn(g.wire)
 	tc.cut = cut
 	tc.rfault = kind
@@ -347,10 +347,47 @@ func vfH_fault_read() {
 		rc.newDecompressionReader = decompressNoContextTakeover
 	}
 	rc.SetPingHandler(func(string) error { return nil })
-	rp := vfChoose(2)
+	rp := vfChoose(3)
 	a := vfPick([]int{1, R, 2 * R})
 	var nrErr error
 	failed := false
+	if rp == 2 {
+		// abandon the first message after one byte; everything else via ReadMessage
+		if _, r, err := rc.NextReader(); err == nil {
+			var b1 [1]byte
+			r.Read(b1[:])
+		}
+		// Once any read call has failed, every later one must fail: checked below.
+		for i := 0; i < len(g.msgs)+1; i++ {
+			_, r, err := rc.NextReader()
+			if err != nil {
+				nrErr = err
+				break
+			}
+			// a message delivered after an abandoned one must be a real, complete one
+			p, err := io.ReadAll(r)
+			if err == nil {
+				ok := false
+				for _, m := range g.msgs[1:] {
+					if len(p) == len(m.data) && m.end <= len(g.wire) {
+						if vfAllEq(p, m.data) {
+							ok = true
+						}
+					}
+				}
+				vfAssert(ok, "c05-only-real-messages-delivered")
+				vfAssert(kind != vfFaultTransient || cut >= g.msgs[0].end || cut <= g.msgs[0].start, "c05-error-while-skipping-is-not-swallowed")
+			}
+		}
+		_, r1, e1 := rc.NextReader()
+		_, r2, e2 := rc.NextReader()
+		vfAssert(e1 != nil && e1 == e2 && r1 == nil && r2 == nil, "c05-error-is-sticky")
+		if nrErr != nil {
+			vfAssert(e1 == nrErr, "c05-same-error-as-first")
+		}
+		vfReach("fault-read-failed-message")
+		return
+	}
 	for i, m := range g.msgs {
 		g1, ok := vfReadOne(rc, rp, a)
 		complete := ok && g1.err == nil
@@ -363,6 +400,9 @@ func vfH_fault_read() {
 		} else {
 			// (b) a message that had fully arrived before the failing read is reported
 			arrivedBefore := m.end < cut || (m.end == cut && kind != vfFaultEOFWithData)
+			if kind == vfFaultTransient {
+				arrivedBefore = m.end <= cut
+			}
 			if kind == vfFaultEOFWithData && !chunkOne {
 				arrivedBefore = false // the failing read may have carried the message itself
 			}
